@@ -37,6 +37,8 @@ TABLE=engine_core/src/engine/table.rs
 MAGIC=board/src/board/precalculated/magic.rs
 CONSTS=board/src/board/constants.rs
 PGN=pgn/src/reader.rs
+SIMPLE=engine_core/src/engine/heuristic/simple.rs
+LIBRS=board/src/lib.rs
 
 # name | expected (FAIL/PASS) | file | sed expression
 MUTATIONS=(
@@ -273,6 +275,29 @@ MUTATIONS=(
 "pgn-UNSUPPORTED-nested-loop|FAIL|$PGN|s/^            result.push(mv);$/            result.push(mv); while self.ensure_buffer() { break; }/"
 "pgn-HARMLESS-rename-local|PASS|$PGN|s/cur_byte/cb/g"
 "pgn-HARMLESS-default-chunk|PASS|$PGN|s/Self::with_chunk_size(reader, 8192)/Self::with_chunk_size(reader, 4096)/"
+# ---- UCI text lookup: `to_uci_string`, `piece_to_string`, `find_uci`, `make_uci` (C13)
+"uci-find-eq-to-ne|FAIL|$BOARD|s/self.generate_pseudo_legal_moves().into_iter().find(|mv| mv.to_uci_string() == uci)/self.generate_pseudo_legal_moves().into_iter().find(|mv| mv.to_uci_string() != uci)/"
+"uci-find-no-trim|FAIL|$BOARD|/fn find_uci/,/Ok(result)/s/let uci = uci.trim();/let uci = uci;/"
+"uci-find-valid-negated|FAIL|$BOARD|/fn find_uci/,/Ok(result)/s/if !self.is_valid() {/if self.is_valid() {/"
+"uci-find-no-final-unmake|FAIL|$BOARD|/fn find_uci/,/Ok(result)/s/^        self.unmake(result);$//"
+"uci-find-non-quiescent-generator|FAIL|$BOARD|s/let result = self.generate_pseudo_legal_moves().into_iter().find(/let result = self.generate_pseudo_legal_non_quiescent_moves().into_iter().find(/"
+"uci-make-uci-no-make|FAIL|$BOARD|/fn make_uci/,/Ok(())/s/^        self.make(mv);$//"
+"uci-text-squares-swapped|FAIL|$BOARD|s/format!(\"{}{}{}\", square_to_string(self.get_source_square()), square_to_string(self.get_target_square())/format!(\"{}{}{}\", square_to_string(self.get_target_square()), square_to_string(self.get_source_square())/"
+"uci-text-separator|FAIL|$BOARD|s/format!(\"{}{}{}\", square_to_string(self.get_source_square())/format!(\"{}-{}{}\", square_to_string(self.get_source_square())/"
+"uci-piece-index-plus-one|FAIL|$LIBRS|s/Piece::from_index(piece_bits as usize).map_or_else/Piece::from_index(piece_bits as usize + 1).map_or_else/"
+"uci-HARMLESS-to-owned|PASS|$BOARD|/fn find_uci/,/Ok(result)/s/MoveDoesNotExist(uci.to_string())/MoveDoesNotExist(uci.to_owned())/"
+# ---- `SimpleHeuristic` (C11; the piece-square tables are opaque)
+"simple-queen-value|FAIL|$SIMPLE|s/const QUEEN_VALUE: u32 = 900;/const QUEEN_VALUE: u32 = 950;/"
+"simple-stage-le-to-lt|FAIL|$SIMPLE|s/(board.white.knights() | board.white.bishops()).count_ones() <= 1/(board.white.knights() | board.white.bishops()).count_ones() < 1/"
+"simple-stage-always-mid|FAIL|$SIMPLE|s/^            LATE$/            MID/"
+"simple-stage-drops-a-case|FAIL|$SIMPLE|s/|| (black_has_queens_but_one_or_fewer_minor_pieces \&\& !white_has_queens)//"
+"simple-sum-wrong-table|FAIL|$SIMPLE|s/Self::piece_square_sum(player.knights(), \&tables\[KNIGHT as usize - 1\])/Self::piece_square_sum(player.knights(), \&tables[BISHOP as usize - 1])/"
+"simple-black-uses-white-tables|FAIL|$SIMPLE|s/\&BLACK_TABLES\[stage\]/\&WHITE_TABLES[stage]/"
+"simple-their-sum-added|FAIL|$SIMPLE|s/my_sum - their_sum + psv/my_sum + their_sum + psv/"
+"simple-loop-subtracts|FAIL|$SIMPLE|s/sum += values\[shift as usize\];/sum -= values[shift as usize];/"
+"simple-material-no-pawns|FAIL|$SIMPLE|s/state.knights().count_ones() \* KNIGHT_VALUE +/state.knights().count_ones() * KNIGHT_VALUE)/;s/^            state.pawns().count_ones() \* PAWN_VALUE) as i32/            as i32/"
+"simple-HARMLESS-rename-local|PASS|$SIMPLE|s/\bpsv\b/square_part/g"
+"simple-HARMLESS-stage-let|PASS|$SIMPLE|s/let white_sum = Self::piece_square_sum_for_player(\&board.white, \&WHITE_TABLES\[stage\]);/let wt = \&WHITE_TABLES[stage]; let white_sum = Self::piece_square_sum_for_player(\&board.white, wt);/"
 )
 
 ok=0; bad=0
